@@ -11,7 +11,7 @@ from ..prop import Prop
 from ..ref import clock
 
 FIXED_EPOCHS = [1_700_000_000 + k * 7_654_321 % 63_072_000 for k in range(96)]
-MALFORMED = ["12:30Z", "12:30+02", "08:15-11", "21:00+0545", "06:45.5", "1_2:30", "12:3_0", "12:30am", "T12:30", "12h30", "0x0c:1e",
+MALFORMED = ["21:00\n", "21:00\r\n", "21:00\n:junk", "21:00 x", "21:00\t", "\n21:00x", "12:30Z", "12:30+02", "08:15-11", "21:00+0545", "06:45.5", "1_2:30", "12:3_0", "12:30am", "T12:30", "12h30", "0x0c:1e",
              "", "2100", "21", "ab:cd", "x1:00", "12:y", "24:00", "25:10", "99:99", "12:60", "12:75",
              "-1:30", "12:-5", ":", ":30", "12:", "noon", "1200:", "12;30", "１２:３０"]
 
